@@ -18,7 +18,7 @@ import (
 func init() { register("C04", false, checkC04) }
 
 func checkC04(c *Ctx) {
-	c.Rule("C04.R1", "Extend/extendPoint = lattice join (empty operand is the identity), NewBounds = join identity, Overlaps ⇔ closed boxes share a point, Empty ⇔ Max<Min on an axis, Copy field-wise and fresh, box∩box = common rectangle or nil iff no shared area — for every weak ordering of the coordinates")
+	c.Rule("C04.R1", "Extend/extendPoint = lattice join (empty operand is the identity), NewBounds = join identity, Overlaps ⇔ closed boxes share a point, Empty ⇔ Max<Min on an axis, Copy field-wise and fresh, box∩box = common rectangle or nil iff no shared area — for every weak ordering of the coordinates; box∩box also for boxes reaching to infinity (strips, half planes, quadrants, the whole plane), with differences and products of ordinates followed by sign under IEEE-754")
 	c.Rule("C04.R2", "Len() = number of vertices and Bounds() = smallest box around them (NewBounds() when there are none), evaluated for all eight types on model geometries with empty members in every position")
 	c.Rule("C04.R3", "Points(): Len() calls of the iterator yield the vertices in storage order without panicking, for all eight types on model geometries with empty members in every position (leading, trailing, runs, nested)")
 	c.Rule("C04.R5", "axis discipline in packages geom, index/rtree and op: no comparison relates an X ordinate to a Y ordinate (directly, through locals, math.Min/Max or ± axis-free terms)")
@@ -259,7 +259,28 @@ func (e *c04e2) lattice() {
 func boxBoxIntersection(c *Ctx, e *c04e2, m *types.Func, rule string) {
 	name, pos := c.P.FuncName(m)+"#box-box", c.P.Decl(m).Pos()
 	n := 0
-	for _, bp := range e.boxPairs(false) {
+	// differences and products of ordinates (an area, say) are followed by their signs
+	e.it.signArith = true
+	defer func() { e.it.signArith = false }()
+	pairs := e.boxPairs(false)
+	// boxes that reach to infinity: strips and half planes that overlap, only touch along an
+	// unbounded edge, or are apart (the statement's "all coordinate values including infinities")
+	inf := oInf
+	for _, p := range [][2]oBox{
+		{{-inf, 0, inf, 2}, {-inf, 2, inf, 4}},   // horizontal strips sharing an unbounded edge
+		{{-inf, 0, inf, 2}, {-inf, 1, inf, 4}},   // overlapping strips
+		{{-inf, 0, inf, 2}, {-inf, 3, inf, 4}},   // strips apart
+		{{0, -inf, 2, inf}, {2, -inf, 4, inf}},   // vertical strips sharing an unbounded edge
+		{{0, -inf, 2, inf}, {-inf, 0, inf, 2}},   // crossing strips: a finite square
+		{{2, -inf, inf, inf}, {0, -inf, 2, inf}}, // a half plane touching a strip
+		{{2, -inf, inf, inf}, {0, -inf, 3, inf}}, // a half plane overlapping a strip
+		{{-inf, -inf, inf, inf}, {0, 0, 2, 2}},   // the whole plane and a finite box
+		{{-inf, -inf, inf, inf}, {0, 1, 0, 3}},   // the whole plane and a box without width
+		{{0, 0, inf, inf}, {-inf, -inf, 0, 0}},   // opposite quadrants meeting in a point
+	} {
+		pairs = append(pairs, boxPair{a: p[0], b: p[1]}, boxPair{a: p[1], b: p[0]})
+	}
+	for _, bp := range pairs {
 		n++
 		recv := e.mk(bp.a)
 		res, why := e.it.Call(m, oPtr{recv}, []oval{oIface{dyn: oPtr{e.mk(bp.b)}}}, 0)
@@ -303,7 +324,7 @@ func boxBoxIntersection(c *Ctx, e *c04e2, m *types.Func, rule string) {
 		}
 	}
 	c.Evals(n)
-	c.OK(rule, name, pos, "common rectangle, nil exactly when no shared area, all %d orderings", n)
+	c.OK(rule, name, pos, "common rectangle, nil exactly when no shared area, all %d orderings (every weak ordering of finite coordinates, and strips, half planes and quadrants reaching to infinity)", n)
 }
 
 // checkBoxJoin: method (b *Bounds) f(b2 *Bounds) must make b the join of b and b2.
